@@ -40,18 +40,21 @@ def main():
             if cls in cnt:
                 i, v = first[cls]
                 inp = u["inputs"][i]
-                rep.violation({"instr": r["instr"], "class": cls},
+                rep.violation({"instr": r["instr"], "class": cls} if r.get("variant") is None else
+                              {"instr": r["instr"], "class": cls, "strided_operand": r["variant"]},
                               {"instr": r["instr"], "c_instr": r["c_instr"], "exo_body": r["body"], "wrapper": r["wrapper"],
                                "verdict": v, "input": inp["a"], "c_output": inp.get("out"), "counts": dict(cnt),
                                "msgs": r["msgs"]})
         rep.sample({"instr": r["instr"], "c_instr": r["c_instr"][:120], "verdicts": dict(cnt)})
     rep.add_cov(programs=len(units), disagreements_checked=n_exec, executions_agreeing=n_ok, states=res.states,
                 transitions=res.generated, instructions_total=len(recs), instructions_skipped=stat["skipped"],
-                wrappers_rejected=stat["wrapper-rejected"], evaluations=n_exec, distinct_nontrivial=len(units))
+                wrappers_rejected=stat["wrapper-rejected"], strided_variants_rejected_by_exo=stat["strided-rejected"],
+                strided_variants_run=sum(1 for r in built if r.get("variant") is not None), evaluations=n_exec, distinct_nontrivial=len(units))
     rep.cov["skipped"] = [(r["instr"], r.get("why", "")[:120]) for r in recs if r["status"] != "built"]
     rep.cov["avx512"] = avx512
     rep.cov["rule"] = ("one program = one x86 instruction inside a generated wrapper (DRAM operands at offset 1 inside larger "
-                       "arrays, register operands loaded/stored with the library's loadu/storeu instructions); executed with gcc "
+                       "arrays - and, one operand at a time, as a stride-3 column of a 2-D array wherever exo accepts that, i.e. wherever the "
+                       "instruction's assertions permit a non-unit stride -, register operands loaded/stored with the library's loadu/storeu instructions); executed with gcc "
                        "-mavx2 -mfma -mavx512f + sanitizers on lane-distinct small integers (negative values included, exact "
                        "quotients for div) for every admissible size/mask argument; each execution's final DRAM state is "
                        "validated by TLC against the machine executing the instructions' Exo bodies")
